@@ -106,11 +106,15 @@ func unlockCommand(cmd *cobra.Command, args []string) {
 		}
 	} else if unlockCmdFlags.Id != "" {
 		// This call can early-out
-		unlockAbortIfFileModifiedById(unlockCmdFlags.Id, lockClient)
+		err := unlockAbortIfFileModifiedById(unlockCmdFlags.Id, lockClient)
+		if err == nil {
+			if err = lockClient.UnlockFileById(unlockCmdFlags.Id, unlockCmdFlags.Force); err != nil {
+				err = errors.New(tr.Tr.Get("Unable to unlock %v: %v", unlockCmdFlags.Id, errors.Cause(err)))
+			}
+		}
 
-		err := lockClient.UnlockFileById(unlockCmdFlags.Id, unlockCmdFlags.Force)
 		if err != nil {
-			locks = handleUnlockError(locks, unlockCmdFlags.Id, "", errors.New(tr.Tr.Get("Unable to unlock %v: %v", unlockCmdFlags.Id, errors.Cause(err))))
+			locks = handleUnlockError(locks, unlockCmdFlags.Id, "", err)
 			success = false
 		} else if !locksCmdFlags.JSON {
 			Print(tr.Tr.Get("Unlocked Lock %s", unlockCmdFlags.Id))
